@@ -202,10 +202,10 @@ func (e *Evaluator) Eval(prog *parser.Program) error {
 }
 
 func (e *Evaluator) eval(node parser.Node) (value, error) {
+	e.yield()
 	if e.Stopped {
 		return nil, ErrStopped
 	}
-	e.yield()
 	switch node := node.(type) {
 	case *parser.Program:
 		return e.evalProgram(node)
